@@ -546,7 +546,7 @@ class C17(Check):
     floor_nontrivial = 20
     required_counters = ("law_instances", "inv:PatchedCounts", "inv:SampledData", "inv:Binning", "inv:CorrFunc")
     shards = (8, 16)
-    budget = (60, 400)
+    budget = (300, 400)
 
     def cases(self, tier, seed):
         if tier != "quick":
